@@ -22,6 +22,10 @@ func (tree *ParserT) parseBareword() []rune {
 	}
 
 endBareword:
+	if i > len(tree.expression) {
+		// called at the very end of the input: an empty word
+		i = len(tree.expression)
+	}
 	value := tree.expression[tree.charPos:i]
 	tree.charPos = i
 	return value
